@@ -67,7 +67,7 @@ class Outcome:
     pass
 
 
-def execute(ctx, res, scenario):
+def execute(ctx, res, scenario, prefill_head=False):
     """-> Outcome(table, errors, wraps, raised)"""
     repo = ctx.repo
     cls = res.cls
@@ -102,6 +102,9 @@ def execute(ctx, res, scenario):
         return e
 
     me = Table(errors={}, dependent={h: h.dep for h in handlers.values()}, all={}, name="tbl")
+    if prefill_head:
+        # as if another thread, resolving the same key, had already stored the entry of the bare key
+        dict.__setitem__(me, tup, Handler(name="<stored by another thread>", dep=False))
     # stubs by role: the ranking is the method of the class that sorts; the wrapper is the method calling the generator
     from .. import anchors as A
     from .c10 import _wrap_site
@@ -200,9 +203,9 @@ def _symkey(k):
     return k
 
 
-def check(ctx, res, name):
+def check(ctx, res, name, prefill_head=False):
     scenario = SCENARIOS[name]
-    out = execute(ctx, res, scenario)
+    out = execute(ctx, res, scenario, prefill_head=prefill_head)
     problems = {"entries": [], "errors": [], "wrap-next": [], "no-method": [], "wrap-whole-rank": []}
     if not scenario:
         ok = isinstance(out.raised, Record) and getattr(out.raised, "kind", "") == "error" and out.raised.group == ()
@@ -296,3 +299,16 @@ def with_fallback(ctx, laws, fallback, scenarios=None):
         del ctx.obs[n0:]
         ctx.note(f"resolution not interpretable ({e}); syntactic rule used instead")
         fallback(ctx)
+
+
+def law_prefilled(ctx):
+    """The same laws with the bare key's entry already present (what a concurrent resolution of the same key leaves
+    behind between its stores): the chain below must still be installed."""
+    from .c10 import _wrap_site
+
+    res, _, _ = _wrap_site(ctx)
+    ctx.touch(res)
+    for sc in ("chain-of-three", "tie-below", "dependent-rank-below"):
+        probs = check(ctx, res, sc, prefill_head=True)
+        ps = probs["entries"] + probs["errors"]
+        ctx.ob(f"{res.key}:complete-when-head-present:{sc}", res.loc(), f"[{sc}] with the bare key's entry already present the resolution still stores every continuation entry (interpreted)", not ps, "; ".join(ps[:3]) + ": a thread that missed the key and finds it filled by another thread returns without its call_next entries; its method's call_next answers 'no method'")
